@@ -2,7 +2,7 @@
 //! remain readable, with unchanged surviving fields, after every permitted
 //! schema upgrade.
 //!
-//! SCOPE: all chains of <= 3 upgrades (`Schema::upgrade_with`, the old schema
+//! SCOPE: all chains of <= 3 (thorough: 4) upgrades (`Schema::upgrade_with`, the old schema
 //! taken from its persisted CBOR form as `Collection::try_upgrade_schema`
 //! does) over
 //!  * `top`:    3 top-level field names, each absent / required T / Option(T)
@@ -243,6 +243,7 @@ struct Stats {
     chains: Vec<u64>,
     docs_written: u64,
     failed_reads: u64,
+    cut: bool,
     found: Vec<Found>,
     sample: Option<serde_json::Value>,
 }
@@ -302,9 +303,14 @@ fn step(
     next_lineage: u32,
     pool: &[Stored],
     max_len: usize,
+    deadline: std::time::Instant,
     st: &mut Stats,
 ) {
     if chain.len() > max_len {
+        return;
+    }
+    if std::time::Instant::now() > deadline {
+        st.cut = true;
         return;
     }
     let version = chain.len() as u64 + 1;
@@ -439,12 +445,12 @@ fn step(
             st.sample = Some(json!({"scope": scope.name(), "permitted_chain": chain_str, "documents_checked": new_pool.len()}));
         }
         new_pool.extend(fresh);
-        step(scope, slots, configs, chain, &new, &new_lineage, nl, &new_pool, max_len, st);
+        step(scope, slots, configs, chain, &new, &new_lineage, nl, &new_pool, max_len, deadline, st);
         chain.pop();
     }
 }
 
-fn explore(scope: Scope, first: &Config, configs: &[Config], max_len: usize) -> Stats {
+fn explore(scope: Scope, first: &Config, configs: &[Config], max_len: usize, deadline: std::time::Instant) -> Stats {
     let slots = match scope {
         Scope::Top => top_slots(),
         Scope::Nested => nested_slots(),
@@ -467,7 +473,7 @@ fn explore(scope: Scope, first: &Config, configs: &[Config], max_len: usize) -> 
     let pool = write_docs(scope, &slots, first, &lineage, &s0a, 0);
     st.docs_written += pool.len() as u64;
     let mut chain = vec![first.clone()];
-    step(scope, &slots, configs, &mut chain, &s0, &lineage, n, &pool, max_len, &mut st);
+    step(scope, &slots, configs, &mut chain, &s0, &lineage, n, &pool, max_len, deadline, &mut st);
     st
 }
 
@@ -482,7 +488,8 @@ fn parse_tag(t: &str) -> St {
 
 fn main() {
     let mut run = Run::from_args("C13", "upgrade", "exploration");
-    let max_len = 3; // upgrades per chain
+    let max_len = run.tier.pick(3, 4); // upgrades per chain
+    let deadline = std::time::Instant::now() + std::time::Duration::from_secs_f64((run.remaining_s() - 1.0).max(1.0));
     let top_cfgs = all_configs(3, true);
     let nested_cfgs = all_configs(2, false);
 
@@ -507,9 +514,11 @@ fn main() {
             jobs.push((Scope::Nested, c.clone(), nested_cfgs.clone(), max_len));
         }
     }
-    let stats = util::par_map(jobs, util::n_threads(), |(scope, first, cfgs, len)| explore(scope, &first, &cfgs, len));
+    let stats = util::par_map(jobs, util::n_threads(), |(scope, first, cfgs, len)| explore(scope, &first, &cfgs, len, deadline));
     let mut found = Vec::new();
+    let mut cut = false;
     for mut s in stats {
+        cut |= s.cut;
         run.add("evaluations", s.reads);
         run.add("upgrades_tried", s.upgrades_tried);
         run.add("upgrades_permitted", s.upgrades_permitted);
@@ -523,13 +532,17 @@ fn main() {
         }
         found.append(&mut s.found);
     }
+    if cut {
+        run.cap_hit("time budget: some chains were not extended to the full length");
+    }
+    run.set("max_upgrades_per_chain", json!(max_len));
     // simplest first
     found.sort_by(|a, b| a.complexity.cmp(&b.complexity).then(a.v.summary.cmp(&b.v.summary)));
     for f in found {
         run.violation(f.v);
     }
     run.rule(
-        "all chains of <= 3 upgrades over (top) 3 field names x {absent, required T, Option(T), Option(T')} = 64 configurations per version and (nested) one nested struct with 2 keys x the same 4 states = 15 configurations per version; every successor configuration is offered to Schema::upgrade_with against the CBOR-persisted predecessor; for each permitted upgrade every document written under every earlier version (all combinations of absent / Null / value per optional slot), both as first stored and as rewritten after the previous upgrade, is read under the new schema; a slot survives while it stays declared without interruption; distinct = permitted chains; evaluations = document read-backs",
+        "all chains of <= 3 (thorough: 4) upgrades over (top) 3 field names x {absent, required T, Option(T), Option(T')} = 64 configurations per version and (nested) one nested struct with 2 keys x the same 4 states = 15 configurations per version; every successor configuration is offered to Schema::upgrade_with against the CBOR-persisted predecessor; for each permitted upgrade every document written under every earlier version (all combinations of absent / Null / value per optional slot), both as first stored and as rewritten after the previous upgrade, is read under the new schema; a slot survives while it stays declared without interruption; distinct = permitted chains; evaluations = document read-backs",
     );
     run.assume("slot types: x I64/Text, y Vector/F32, z Map{*:I64}/Bytes; nested keys a I64/Text, b F32/U64; which upgrades are permitted is taken from upgrade_with itself (non-permitted upgrades are not part of the property)");
     run.finish();
